@@ -288,7 +288,7 @@ class Gen:
             self.entry_kinds[e] = kind
         target = r.randrange(3, self.max_nodes + 1)
         did_fb = False
-        general_fb = self.allow_feedback and r.random() < 0.12
+        general_fb = self.allow_feedback and r.random() < 0.2
         saved_collect = self.allow_collect
         if general_fb:
             self.allow_collect = False      # a flush trigger must never end up downstream of its own collector
